@@ -3,7 +3,8 @@
 Every generated program is run under K seeded permutations of its statements (facts, rules, ADs, queries, evidence) and of
 its rule bodies (negative literals stay after the positive literals that bind their variables); every permuted run is
 compared with the Lean specification `Sem` of the UNPERMUTED program. Lean theorems: the specification is invariant
-under permutation of the ground rules / body atoms (least model does not depend on clause order)."""
+under permutation of the ground rules / body atoms (least model does not depend on clause order); first-order level
+(C07FO): permuting statements / body literals, renaming variables leaves `SemFO.run` unchanged."""
 import random
 
 import cfgprop
@@ -31,6 +32,8 @@ THEOREMS_FO = [
     "ProbLogProofs.C07FO.C07FO_stmt_perm",
     "ProbLogProofs.C07FO.C07FO_stmt_perm_run",
     "ProbLogProofs.C07FO.C07FO_var_rename",
+    "ProbLogProofs.C07FO.C07FO_body_perm",
+    "ProbLogProofs.C07FO.C07FO_body_perm_run",
 ]
 
 MANIFEST = {
